@@ -67,6 +67,17 @@ type Scenario struct {
 	Check      func(w *World) []Violation
 	Note       string
 	Env        map[string]string // process environment for the duration of the execution
+	dir        string            // scratch directory of the scenario (created on first use)
+	written    bool
+}
+
+// Cleanup removes the scenario's scratch directory.
+func (sc *Scenario) Cleanup() {
+	if sc.dir != "" {
+		os.RemoveAll(sc.dir)
+		sc.dir = ""
+		sc.written = false
+	}
 }
 
 func (sc *Scenario) script(name string, num int) *ProcScript {
@@ -284,16 +295,20 @@ const quantum = 250 * time.Millisecond
 
 var devNull *os.File
 
+var stateDump map[string]bool
+
 // RunExecution runs the scenario under the given choice prefix (choice 0 afterwards).
 func RunExecution(t *testing.T, sc *Scenario, prefix []int) (w *World) {
 	w = &World{sc: sc, byWrapper: map[*command.CmdWrapper]*FProc{}, launches: map[string]int{}, auxCalls: map[string]int{},
 		nextPid: 2_000_000_000, states: map[uint64]bool{}, Extra: map[string]any{}, lastStat: map[string]string{}}
-	dir, err := os.MkdirTemp("", "vh-exec-")
-	if err != nil {
-		panic(err)
+	if sc.dir == "" {
+		dir, err := os.MkdirTemp("", "vh-scen-")
+		if err != nil {
+			panic(err)
+		}
+		sc.dir = dir
 	}
-	w.dir = dir
-	defer os.RemoveAll(dir)
+	w.dir = sc.dir
 	for k, v := range sc.Env {
 		old, had := os.LookupEnv(k)
 		os.Setenv(k, v)
@@ -329,6 +344,10 @@ func RunExecution(t *testing.T, sc *Scenario, prefix []int) (w *World) {
 func (w *World) writeFiles() string {
 	sc := w.sc
 	main := filepath.Join(w.dir, "process-compose.yaml")
+	if sc.written {
+		return main
+	}
+	sc.written = true
 	os.WriteFile(main, []byte(strings.ReplaceAll(sc.YAML, "@DIR@", w.dir)), 0o644)
 	for name, content := range sc.Files {
 		os.MkdirAll(filepath.Dir(filepath.Join(w.dir, name)), 0o755)
@@ -539,7 +558,6 @@ func (w *World) control(prefix []int) {
 	idle := 0
 	for {
 		synctest.Wait()
-		w.Steps++
 		threads := s.Collect()
 		var thr []*vrt.Thread
 		var envThr []*vrt.Thread
@@ -614,6 +632,7 @@ func (w *World) control(prefix []int) {
 			add("tick", envCost)
 		}
 		c := w.nextChoice(prefix, cp)
+		w.Steps++
 		w.mix(cp.Labels[c])
 		if c < cp.N-1 || !canTick {
 			w.lastAct = w.now()
@@ -761,9 +780,16 @@ func (w *World) drain() {
 // noteState counts distinct abstract states at choice points (coverage only).
 func (w *World) noteState(threads []*vrt.Thread, evs []envEvent, quiescent bool) {
 	h := fnv.New64a()
+	var dbg *strings.Builder
+	if stateDump != nil {
+		dbg = &strings.Builder{}
+	}
 	for _, t := range threads {
 		if op := t.Pending(); op != nil {
 			fmt.Fprintf(h, "%s|%s|%s|%v;", t.Key, op.Kind, op.Tag, t.IsEnabled())
+			if dbg != nil {
+				fmt.Fprintf(dbg, "%s|%s|%s|%v;", t.Key, op.Kind, op.Tag, t.IsEnabled())
+			}
 		}
 	}
 	for _, e := range evs {
@@ -779,6 +805,15 @@ func (w *World) noteState(threads []*vrt.Thread, evs []envEvent, quiescent bool)
 	sort.Strings(keys)
 	for _, k := range keys {
 		fmt.Fprintf(h, "%s=%s;", k, last[k])
+	}
+	if dbg != nil {
+		for _, e := range evs {
+			dbg.WriteString(e.label)
+		}
+		for _, k := range keys {
+			fmt.Fprintf(dbg, "%s=%s;", k, last[k])
+		}
+		stateDump[dbg.String()] = true
 	}
 	w.states[h.Sum64()] = true
 }
